@@ -180,6 +180,9 @@ func (c *cluster) spawn(i, gen int) *cnode {
 }
 
 func summarize(buf []byte) []string {
+	if rest, _, err := ml.RemoveLabelHeaderFromPacket(buf); err == nil {
+		buf = rest
+	}
 	leaves, err := explode(buf)
 	if err != nil {
 		return []string{"?"}
